@@ -180,11 +180,12 @@ fn run(ctx: &Ctx) -> Run {
                 }
             };
             let seg = if rng.chance(0.15) { None } else { Some(1 + rng.below(64) as i32) };
+            let closed = rng.chance(0.5);
             if i % 3 == 1 {
-                prime_history(&mut rng, c);
+                prime_history_with(&mut rng, c, seg, closed);
                 run.count("primed_with_a_relative");
             }
-            check_ring(run, c, seg, rng.chance(0.5), class);
+            check_ring(run, c, seg, closed, class);
             run.count(&format!("class.{class}"));
             run.count(&format!("res.{res:02}"));
         }
